@@ -96,7 +96,7 @@ def cases(tier, seed):
     others = [('TinySSH', 'noversion', 'tinyssh_noversion'), ('PuTTY', '0.80', 'PuTTY_Release_0.80'), (None, None, 'FooSSH_1.0'), (None, None, 'Cisco-1.25'), (None, None, None), ('TinySSH', '20240101', 'tinyssh_20240101')]
     cs = []
     n = 220 if tier == 'quick' else 4000
-    profiles = ['db', 'asym', 'sizes', 'terrapin', 'gss', 'unknown', 'big', 'weak', 'db', 'asym-weak', 'lone-change']
+    profiles = ['db', 'asym', 'sizes', 'terrapin', 'gss', 'unknown', 'big', 'weak', 'db', 'asym-weak', 'lone-change', 'empty-category']
     for i in range(4 if tier == 'quick' else 40):
         cs.append({'kind': 'multi', 'seed': rng.randrange(1 << 30), 'threads': [1, 2][i % 2], 'render': 'json'})
     # OpenSSH servers whose group exchanges are all measured at exactly 2048 bits (the case in which one of them is excused as outside the operator's control)
@@ -108,7 +108,7 @@ def cases(tier, seed):
             prod, w, sw = others[(i // 6) % len(others)]
         else:
             prod, w, sw = banners[(i * 7 + seed) % len(banners)] if tier == 'quick' else banners[i % len(banners)]
-        cs.append({'seed': rng.randrange(1 << 30), 'product': prod, 'version': w, 'software': sw, 'profile': profiles[i % len(profiles)], 'render': 'json' if i % 3 == 0 else 'text'})
+        cs.append({'seed': rng.randrange(1 << 30), 'product': prod, 'version': w, 'software': sw, 'profile': profiles[(i + i // len(profiles)) % len(profiles)], 'render': 'json' if i % 3 == 0 else 'text'})   # shifted per cycle so that every profile meets every banner class
     return cs
 
 
@@ -155,6 +155,13 @@ def build(c):
     if prof.startswith('gex2048'):
         k['kex'] = ['curve25519-sha256', 'diffie-hellman-group-exchange-sha256'] + (['diffie-hellman-group-exchange-sha1'] if prof.endswith('both') else []) + [x for x in k['kex'] if 'group-exchange' not in x and x != 'curve25519-sha256'][:2]
         gex = {'sizes': rng.choice([[2048], [2048, 8192]]), 'style': rng.choice(['strict', 'openssh'])}
+    if prof == 'empty-category':
+        # one name-list is empty (protocol-valid), the categories after it carry weak algorithms
+        k = audit.sym_kex(['curve25519-sha256', 'diffie-hellman-group14-sha1'], ['ssh-rsa', 'ssh-ed25519'], ['aes128-ctr', '3des-cbc', 'aes128-cbc'], ['hmac-sha2-256', 'hmac-sha1', 'hmac-md5'])
+        emptied = rng.choice(['key', 'kex', 'enc_sc'])
+        k[emptied] = []
+        if emptied == 'enc_sc':
+            k['enc_cs'] = []
     if prof == 'lone-change':
         # a host-key list with nothing to add and nothing to remove, whose RSA key is 2048 bits: the only recommendation of the category is a change
         k['key'] = ['ssh-ed25519', 'rsa-sha2-256'] + ([] if c['product'] == 'Dropbear SSH' else ['rsa-sha2-512'])
